@@ -1317,40 +1317,96 @@ func sortedMapKeys(m reflect.Value) []reflect.Value {
 // mapKeyLess is a total order on map keys: numbers (by value, then by kind)
 // before strings before everything else (by printed form, then by kind). Keys
 // of an interface-keyed map that print alike, such as 1 and "1", are therefore
-// always walked in the same order.
+// always walked in the same order; so are keys of different defined types with
+// the same value (the name of the type decides), and a NaN comes after every
+// other number.
 func mapKeyLess(a, b reflect.Value) bool {
+	return mapKeyCompare(a, b) < 0
+}
+
+func mapKeyCompare(a, b reflect.Value) int {
 	for a.Kind() == reflect.Interface && !a.IsNil() {
 		a = a.Elem()
 	}
 	for b.Kind() == reflect.Interface && !b.IsNil() {
 		b = b.Elem()
 	}
+	cmp := func(less, greater bool) int {
+		if less {
+			return -1
+		}
+		if greater {
+			return 1
+		}
+		return 0
+	}
 	ra, rb := mapKeyRank(a), mapKeyRank(b)
 	if ra != rb {
-		return ra < rb
+		return cmp(ra < rb, true)
 	}
-	if a.Kind() == b.Kind() {
-		switch a.Kind() {
-		case reflect.String:
-			return a.String() < b.String()
-		case reflect.Int, reflect.Int8, reflect.Int16, reflect.Int32, reflect.Int64:
-			return a.Int() < b.Int()
-		case reflect.Uint, reflect.Uint8, reflect.Uint16, reflect.Uint32, reflect.Uint64:
-			return a.Uint() < b.Uint()
-		case reflect.Float32, reflect.Float64:
-			return a.Float() < b.Float()
+	c := 0
+	switch {
+	case ra == 1:
+		c = cmp(a.String() < b.String(), a.String() > b.String())
+	case ra == 0:
+		fa, fb := mapKeyFloat(a), mapKeyFloat(b)
+		switch {
+		case fa != fa || fb != fb: // NaN: after the numbers
+			c = cmp(fb != fb && fa == fa, fa != fa && fb == fb)
+		case a.Kind() == b.Kind() && a.CanInt():
+			c = cmp(a.Int() < b.Int(), a.Int() > b.Int())
+		case a.Kind() == b.Kind() && a.CanUint():
+			c = cmp(a.Uint() < b.Uint(), a.Uint() > b.Uint())
+		default:
+			c = cmp(fa < fb, fa > fb)
+		}
+	default:
+		sa, sb := fmt.Sprint(a), fmt.Sprint(b)
+		c = cmp(sa < sb, sa > sb)
+	}
+	if c != 0 {
+		return c
+	}
+	if a.Kind() != b.Kind() {
+		return cmp(a.Kind() < b.Kind(), true)
+	}
+	if !a.IsValid() || !b.IsValid() {
+		return 0
+	}
+	ta, tb := a.Type(), b.Type()
+	if ta.String() != tb.String() {
+		return cmp(ta.String() < tb.String(), true)
+	}
+	return cmp(ta.PkgPath() < tb.PkgPath(), ta.PkgPath() > tb.PkgPath())
+}
+
+// mapValueOf is m[key] for a key taken from m's own key list. A NaN key never
+// equals itself, so MapIndex cannot find its value: the entries are walked
+// instead (of several NaN keys the one whose value prints first is taken, so
+// that the answer does not depend on Go's map order).
+func mapValueOf(m, key reflect.Value) reflect.Value {
+	if v := m.MapIndex(key); v.IsValid() {
+		return v
+	}
+	var best reflect.Value
+	bestText := ""
+	iter := m.MapRange()
+	for iter.Next() {
+		k := iter.Key()
+		for k.Kind() == reflect.Interface && !k.IsNil() {
+			k = k.Elem()
+		}
+		if !k.CanFloat() || k.Float() == k.Float() {
+			continue
+		}
+		if text := stableString(iter.Value().Interface()); !best.IsValid() || text < bestText {
+			best, bestText = iter.Value(), text
 		}
 	}
-	if ra == 0 {
-		if fa, fb := mapKeyFloat(a), mapKeyFloat(b); fa != fb {
-			return fa < fb
-		}
-		return a.Kind() < b.Kind()
+	if best.IsValid() {
+		return best
 	}
-	if sa, sb := fmt.Sprint(a), fmt.Sprint(b); sa != sb {
-		return sa < sb
-	}
-	return a.Kind() < b.Kind()
+	return reflect.Zero(m.Type().Elem())
 }
 
 func mapKeyRank(v reflect.Value) int {
